@@ -44,8 +44,9 @@ func (m *c02Model) parentDocs(id string) []*c02Doc {
 	return r
 }
 
-// apply: the documented target selection; merging itself is done by the real
-// merge on private copies (merge is C01's subject).
+// apply: the documented target selection, with the reference matcher
+// (specMatch, C01's model) deciding which documents a pattern hits; merging
+// itself is done by the real merge on private copies (merge is C01's subject).
 func (m *c02Model) apply(id string, data any) bool {
 	dm, isMap := data.(map[string]any)
 	var targets []*c02Doc
@@ -64,13 +65,13 @@ func (m *c02Model) apply(id string, data any) bool {
 			return true
 		}
 		for _, d := range m.parentDocs(id) {
-			if match(vCopy(d.data), vCopy(pat)) {
+			if specMatch(d.data, pat) {
 				targets = append(targets, d)
 			}
 		}
 		if len(targets) == 0 {
 			for _, d := range m.docs {
-				if match(vCopy(d.data), vCopy(pat)) {
+				if specMatch(d.data, pat) {
 					targets = append(targets, d)
 				}
 			}
@@ -119,11 +120,18 @@ func c02Base() map[string]any {
 }
 
 func c02Match(m map[string]any, full bool) {
-	n := 6
+	n := 8
 	if !full {
 		n = 3
 	}
 	switch ndChoice(n) {
+	case 6:
+		// a nested pattern: documents whose "a" is a scalar (or absent) are
+		// not hit by it ...
+		m["$match"] = map[string]any{"a": map[string]any{"x": 1}}
+	case 7:
+		// ... and ARE hit by its inversion
+		m["$match"] = map[string]any{"a": map[string]any{"x": 1, "$invert": true}}
 	case 1:
 		m["$match"] = map[string]any{}
 	case 2:
@@ -236,8 +244,8 @@ func HarnessC02_stream() {
 		n := 1
 		if l == 0 {
 			n = 1 + ndChoice(2)
-			if k == 3 {
-				n = 1 // three base documents: one document per layer
+			if k == 3 && vTier() > 0 {
+				n = 1 // thorough, three base documents: one document per layer (the quick three-document family keeps two)
 			}
 			c02Lean = n == 2
 		}
